@@ -119,15 +119,10 @@ impl Display for LexerError {
                 let src_info = if let Some(file_name) = report_data.src_file.as_ref() {
                     format!(
                         "source file {file_name}:{}:{}",
-                        report_data.line + 1,
-                        report_data.column
+                        report_data.line, report_data.column
                     )
                 } else {
-                    format!(
-                        "line {}, column {}",
-                        report_data.line + 1,
-                        report_data.column
-                    )
+                    format!("line {}, column {}", report_data.line, report_data.column)
                 };
 
                 write!(f, "Error matching ASN syntax at while parsing {src_info}.",)
